@@ -1957,7 +1957,11 @@ def run_check(ctx, prop):
                 "out-of-order updates; and a few one-step 'huge' cases on skewed arrays of more than 65 536 cells) is ALWAYS judged by the "
                 "model-free oracles (NumPy on the dense array, validate(True)+range/arity, common is a most frequent value); its steps are "
                 "compared inside Coq too only while their literals stay small; the oracle-only cases are counted separately "
-                "(coverage.scale_*).  FORM of the arguments: in 60 %% of the steps every argument is handed over in another form with the same "
+                "(coverage.scale_*); a GIANT SPARSE SHAPE stream (indexes built directly from entries whose cell count lies just below / at / above "
+                "2**16 and 2**24 - up to 6 000 000 x 8 and 650 000 x 32 - with an all-common column, a column without any row at the common value "
+                "and ordinary sparse columns, then every route that moves the common value: shift_common(v)/(), append, filtered, reindexed merge, "
+                "column_stack of different commons) is judged by a SPARSE oracle only (numpy set operations on the entries, numpy well-formedness "
+                "test; coverage.giant_sparse_*).  FORM of the arguments: in 60 %% of the steps every argument is handed over in another form with the same "
                 "content (coverage.argument_form_tags): sliced orders as list/tuple/range; precedence lists as list/tuple/ndarray/lists of NumPy "
                 "scalars; mappings as dict/OrderedDict/defaultdict with NumPy-scalar keys (and values except for reindexed); filtered masks as "
                 "bool ndarray / strided view / read-only; row ids of update/union/intersection/difference/set_if/iindex(...) as contiguous uint32, "
@@ -2191,6 +2195,33 @@ def run_check(ctx, prop):
             if pp == prop:
                 extra_problems.append((sig, text, {"huge": q, "op": op, "observed": text[:600],
                                                    "how": "a = iindex_hist.huge_array(huge); idx = iindex.from_array(a); then op; judged by NumPy / validate(True) / most-frequent (no Coq literal)"}))
+    # ---- giant sparse shapes (cell count just below / at / above 2**16 and 2**24), sparse oracle only ----
+    GIANT_MOVES.clear()
+    plan = (["above-2^24-long", "above-2^24-wide", "above-2^24-long", "above-2^24-wide", "just-above-2^24", "at-2^24", "just-below-2^24"] + ["around-2^16"] * 8
+            if ctx.tier == "quick" else
+            ["above-2^24-long", "above-2^24-wide"] * 8 + ["just-above-2^24", "at-2^24", "just-below-2^24"] * 4 + ["around-2^16"] * 60)
+    giant_tags, giant_j = [], 0
+    giant_cols = collections.Counter()
+    for klass in plan:
+        q = giant_params(rng, klass)
+        for col in q["columns"]:
+            giant_cols[{"A": "all-common column", "B": "column without a row at the common value", "O": "ordinary sparse column"}[col["t"]]] += 1
+        try:
+            probs, nj, tag = run_giant_case(impl, q)
+        except Exception as e:  # noqa
+            import traceback
+            probs, nj, tag = [(prop, "giant:unexpected-exception", "%s: %s  %s" % (type(e).__name__, str(e)[:160], traceback.format_exc()[-500:]))], 0, klass
+        giant_j += nj
+        giant_tags.append("%s: %s" % (tag, " -> ".join(r["op"] for r in q["routes"])))
+        for (pp, sig, text) in probs:
+            if pp == prop:
+                extra_problems.append((sig, text, {"giant": q, "observed": text[:800],
+                                                   "how": "sp = iindex_hist.giant_build(giant); idx = iindex(sp entries, common, shape); apply giant.routes; sparse numpy oracle (iindex_hist.run_giant_case)"}))
+    ctx.coverage["giant_sparse_cases(oracle only)"] = len(plan)
+    ctx.coverage["giant_sparse_judgements"] = giant_j
+    ctx.coverage["giant_sparse_cases"] = giant_tags
+    ctx.coverage["giant_sparse_column_kinds"] = dict(giant_cols)
+    ctx.coverage["giant_sparse_routes_that_moved_the_common"] = dict(GIANT_MOVES)
     ctx.coverage["relation_tags"] = dict(REL_TAGS)
     ctx.coverage["relations_not_generated"] = sorted(RELS_OFF)
     ctx.coverage["argument_form_tags"] = dict(FORM_TAGS)
@@ -2372,6 +2403,11 @@ def replay_check(ctx, prop, path):
         for p in st.problems:
             print("one-step replay: %s %s: %s" % p)
             found.append(p)
+    if r.get("giant"):
+        probs, nj, tag = run_giant_case(impl, r["giant"])
+        for pr_ in probs:
+            print("giant-case replay: %s %s: %s" % (pr_[0], pr_[1], pr_[2][:400]))
+            found.append(pr_)
     if r.get("from_array_reuse"):
         lit, probs, tag = from_array_reuse_case(impl, r["from_array_reuse"])
         for pr_ in probs:
@@ -2414,6 +2450,321 @@ def replay_check(ctx, prop, path):
     ctx.nontrivial.update(range(max(2, ctx.evaluations)))
     mine = [f for f in found if f[0] == prop]
     if mine:
-        ctx.report(mine[0][1], "replayed failing input still fails: " + mine[0][2][:300], {k: r[k] for k in ("history", "one_step", "failing_step", "from_array_args", "huge", "op", "from_array_reuse") if k in r})
+        ctx.report(mine[0][1], "replayed failing input still fails: " + mine[0][2][:300], {k: r[k] for k in ("history", "one_step", "failing_step", "from_array_args", "huge", "op", "from_array_reuse", "giant") if k in r})
     else:
         print("replay: the recorded input no longer fails")
+
+
+# --------------------------------------------------------------------------------------------
+# 'giant sparse shape' stream: indexes built directly from entries whose cell count (rows x columns) lies just below / at /
+# above derived thresholds (2**16, 2**24), mostly common, with an all-common column and a column without any row at the
+# common value; every route that shifts the common value; judged by a SPARSE oracle (numpy set operations on the entries,
+# one row-length bool mask at a time) - never a dense array, never Python lists of row ids, no Coq literal.
+# --------------------------------------------------------------------------------------------
+GIANT_MOVES = _collections.Counter()     # routes after which the common value really was another one (evidence)
+GIANT_SHAPES = {
+    "above-2^24-long": lambda r: (r.randint(4200000, 6000000), r.randint(4, 8)),
+    "above-2^24-wide": lambda r: (r.randint(540000, 650000), 32),
+    "just-above-2^24": lambda r: r.choice([(4194305, 4), (2796203, 6), (2097153, 8)]),
+    "at-2^24": lambda r: r.choice([(4194304, 4), (2097152, 8)]),
+    "just-below-2^24": lambda r: r.choice([(4194303, 4), (2796202, 6)]),
+    "around-2^16": lambda r: r.choice([(65535, None), (65536, None), (65537, None), (16384, 4), (16385, 4), (21845, 3), (21846, 3),
+                                       (8192, 8), (8193, 8), (13107, 5), (13108, 5), (32768, 2), (32769, 2)]),
+}
+
+
+def giant_params(rng, klass):
+    R, C = GIANT_SHAPES[klass](rng)
+    pool = [0, 1, 2, 3, 5]
+    c, w, u = rng.sample(pool, 3)
+    ncol = 1 if C is None else C
+    if ncol == 1:
+        types = [rng.choice(["A", "B", "O", "O"])]
+    else:
+        types = ["A", "B"] + [rng.choice(["O", "O", "A", "B"]) for _ in range(ncol - 2)]
+        if rng.random() < 0.5:          # majority of the cells at w: automatic normalisation will move the common value
+            types = ["B" if (t == "O" and rng.random() < 0.8) else t for t in types]
+            while types.count("B") * 2 <= ncol:
+                types[types.index("A" if types.count("A") > 1 else "O") if ("O" in types or types.count("A") > 1) else 0] = "B"
+        rng.shuffle(types)
+    cols = []
+    for t in types:
+        if t == "B":
+            cols.append({"t": "B", "split": None if rng.random() < 0.6 else rng.randint(1, R - 1)})
+        elif t == "O":
+            cols.append({"t": "O", "k": rng.randint(1, 300), "seed": rng.randrange(10 ** 6)})
+        else:
+            cols.append({"t": "A"})
+    routes = []
+    for _ in range(rng.choice([1, 1, 2])):
+        kind = rng.choice(["shiftv", "shiftv", "shift", "append", "filtered", "reindexed", "column_stack"] if C is not None
+                          else ["shiftv", "shift", "append", "filtered", "reindexed"])
+        if kind == "shiftv":
+            routes.append({"op": "shiftv", "v": rng.choice([w, w, u, 7, rng.choice(pool)])})
+        elif kind == "append":
+            m = rng.randint(1, 20)
+            routes.append({"op": "append", "rows": m, "common": rng.choice([w, c, u]), "k": rng.randint(0, 6), "seed": rng.randrange(10 ** 6)})
+        elif kind == "filtered":
+            routes.append({"op": "filtered", "drop": rng.randint(0, 50), "seed": rng.randrange(10 ** 6)})
+        elif kind == "reindexed":
+            x, y = rng.sample(pool, 2)
+            routes.append({"op": "reindexed", "mapping": [[x, y]] + ([[u, y]] if rng.random() < 0.4 and u != x else [])})
+        elif kind == "column_stack":
+            routes.append({"op": "column_stack", "common": rng.choice([w, u, c]), "k": rng.randint(0, 50), "seed": rng.randrange(10 ** 6),
+                           "new_common": rng.choice([None, w, c, u]), "first": rng.random() < 0.5})
+        else:
+            routes.append({"op": "shift"})
+    wmaj = ncol > 1 and sum(1 for t in types if t == "B") * 2 > ncol
+    if klass != "around-2^16" or rng.random() < 0.5:
+        # the first route certainly moves the common value: explicitly, or automatically when most cells hold w
+        if routes[0]["op"] == "shiftv":
+            routes[0]["v"] = rng.choice([w, u, 7])
+        elif not wmaj or routes[0]["op"] in ("reindexed", "column_stack"):
+            if routes[0]["op"] == "column_stack":
+                routes[0]["common"], routes[0]["new_common"] = rng.choice([w, u]), rng.choice([None, w, u])
+                routes[0]["new_common"] = routes[0]["new_common"] if routes[0]["new_common"] != c else w
+                if routes[0]["new_common"] is None:
+                    routes.insert(0, {"op": "shiftv", "v": rng.choice([w, u, 7])})
+            else:
+                routes.insert(0, {"op": "shiftv", "v": rng.choice([w, u, 7])})
+    return {"class": klass, "rows": R, "cols": C, "common": c, "w": w, "u": u, "columns": cols, "routes": routes[:3]}
+
+
+def sp_rows(rs, R, k):
+    return numpy.unique(rs.randint(0, R, k)).astype(U32)
+
+
+def giant_build(q):
+    """Sparse state {entries: {key: sorted uint32 rows}, common, shape} of the parameters."""
+    R, C = q["rows"], q["cols"]
+    ents = {}
+    for j, col in enumerate(q["columns"]):
+        hc = () if C is None else (j,)
+        if col["t"] == "B":
+            if col["split"] is None:
+                ents[(q["w"],) + hc] = numpy.arange(R, dtype=U32)
+            else:
+                ents[(q["w"],) + hc] = numpy.arange(col["split"], dtype=U32)
+                ents[(q["u"],) + hc] = numpy.arange(col["split"], R, dtype=U32)
+        elif col["t"] == "O":
+            rs = numpy.random.RandomState(col["seed"])
+            rows = sp_rows(rs, R, col["k"])
+            cut = len(rows) // 2
+            if cut:
+                ents[(q["w"],) + hc] = rows[:cut].copy()
+            ents[(q["u"],) + hc] = rows[cut:].copy()
+    return {"entries": ents, "common": q["common"], "shape": (R,) if C is None else (R, C)}
+
+
+def sp_copy(sp):
+    return {"entries": {k: v.copy() for k, v in sp["entries"].items()}, "common": sp["common"], "shape": sp["shape"]}
+
+
+def sp_hcs(sp):
+    return [()] if len(sp["shape"]) == 1 else [(j,) for j in range(sp["shape"][1])]
+
+
+def sp_common_rows(sp, hc):
+    m = numpy.ones(sp["shape"][0], dtype=bool)
+    for k, rows in sp["entries"].items():
+        if k[1:] == hc:
+            m[rows] = False
+    return m.nonzero()[0].astype(U32)
+
+
+def sp_counts(sp):
+    cnt = {}
+    for k, rows in sp["entries"].items():
+        cnt[k[0]] = cnt.get(k[0], 0) + len(rows)
+    size = sp["shape"][0] * (sp["shape"][1] if len(sp["shape"]) > 1 else 1)
+    cnt[sp["common"]] = cnt.get(sp["common"], 0) + size - sum(len(r) for r in sp["entries"].values())
+    return cnt
+
+
+def sp_shift(sp, v):
+    if v == sp["common"]:
+        return sp
+    ents = dict(sp["entries"])
+    for hc in sp_hcs(sp):
+        rows = sp_common_rows(sp, hc)
+        if len(rows):
+            ents[(sp["common"],) + hc] = rows
+    ents = {k: r for k, r in ents.items() if k[0] != v}
+    return {"entries": ents, "common": v, "shape": sp["shape"]}
+
+
+def sp_of_real(idx):
+    return {"entries": {tuple(k): v for k, v in dict.items(idx)}, "common": idx.common, "shape": tuple(idx.shape)}
+
+
+def sp_wf(idx):
+    """C07 on the real object with numpy only (validate(True) would build Python sets of millions of row ids)."""
+    shape = idx.shape
+    if type(shape) is not tuple or not all(type(e) is int for e in shape):
+        return "shape %r" % (shape,)
+    R = shape[0]
+    masks = {}
+    for k, v in dict.items(idx):
+        if type(k) is not tuple or len(k) != len(shape) or not all(type(c) is int for c in k):
+            return "key %r (arity / coordinate types)" % (k,)
+        if any(not 0 <= c < e for c, e in zip(k[1:], shape[1:])):
+            return "coordinate out of shape in %r" % (k,)
+        if not isinstance(v, numpy.ndarray) or v.dtype != U32 or v.ndim != 1:
+            return "row ids of %r are not a 1-D uint32 array" % (k,)
+        if len(v) == 0:
+            return "empty entry %r" % (k,)
+        if k[0] == idx.common:
+            return "entry %r at the common value" % (k,)
+        if len(v) > 1 and not bool(numpy.all(v[1:] > v[:-1])):
+            return "row ids of %r are not strictly increasing" % (k,)
+        if int(v[-1]) >= R:
+            return "row id out of range in %r" % (k,)
+        m = masks.setdefault(k[1:], numpy.zeros(R, dtype=bool))
+        if m[v].any():
+            return "a row of %r is listed under another value of the same column too" % (k,)
+        m[v] = True
+    return None
+
+
+def sp_same(real, exp):
+    """Dense meaning equal?  real is canonicalised (empty entries and entries at the common value mean 'common')."""
+    if tuple(real["shape"]) != tuple(exp["shape"]):
+        return "shape %r, expected %r" % (real["shape"], exp["shape"])
+    if real["common"] != exp["common"]:
+        return "common %r, expected %r" % (real["common"], exp["common"])
+    r = {k: v for k, v in real["entries"].items() if len(v) and k[0] != real["common"]}
+    e = exp["entries"]
+    for k in set(r) | set(e):
+        if k not in r:
+            return "no entry %r (expected %d rows, first %r): those cells read as the common value %r" % (k, len(e[k]), e[k][:3].tolist(), real["common"])
+        if k not in e:
+            return "unexpected entry %r (%d rows, first %r)" % (k, len(r[k]), r[k][:3].tolist())
+        if len(r[k]) != len(e[k]) or not numpy.array_equal(numpy.asarray(r[k], dtype=numpy.int64), numpy.asarray(e[k], dtype=numpy.int64)):
+            return "entry %r differs (%d rows, expected %d)" % (k, len(r[k]), len(e[k]))
+    return None
+
+
+def giant_small_other(q, route, hshape, R):
+    """A small sparse operand {entries, common, shape} for append (rows = route['rows']) / column_stack (rows = R, 1-D)."""
+    rs = numpy.random.RandomState(route["seed"])
+    rows = route.get("rows", R)
+    ents = {}
+    vals = [v for v in (q["w"], q["u"], q["common"], 3) if v != route["common"]]
+    for hc in ([()] if not hshape else [(j,) for j in range(hshape[0])]):
+        if route["k"]:
+            rr = sp_rows(rs, rows, route["k"])
+            cut = len(rr) // 2
+            if cut:
+                ents[(vals[0],) + hc] = rr[:cut].copy()
+            ents[(vals[1],) + hc] = rr[cut:].copy()
+    return {"entries": ents, "common": route["common"], "shape": (rows,) + tuple(hshape)}
+
+
+def run_giant_case(impl, q):
+    """Build the giant index, run its routes; returns (problems [(prop, sig, text)], judgements, info)."""
+    problems = []
+    sp = giant_build(q)
+    idx = impl.iindex({k: v.copy() for k, v in sp["entries"].items()}, sp["common"], sp["shape"])
+    nj = 0
+    tag = "%s %s" % (q["class"], "x".join(str(e) for e in sp["shape"]))
+    for route in q["routes"]:
+        o = route["op"]
+        lib = False
+        try:
+            if o == "shiftv":
+                idx.shift_common(route["v"])
+                exp = sp_shift(sp, route["v"])
+                res = idx
+            elif o == "shift":
+                idx.shift_common()
+                lib, base, res = True, sp, idx
+            elif o == "append":
+                osp = giant_small_other(q, route, sp["shape"][1:], None)
+                other = impl.iindex({k: v.copy() for k, v in osp["entries"].items()}, osp["common"], osp["shape"])
+                R0 = sp["shape"][0]
+                base = sp_copy(sp)
+                if osp["common"] != sp["common"]:
+                    osp = sp_shift(osp, sp["common"])
+                for k, rows in osp["entries"].items():
+                    shifted = (rows.astype(numpy.int64) + R0).astype(U32)
+                    base["entries"][k] = shifted if k not in base["entries"] else numpy.concatenate([base["entries"][k], shifted])
+                base["shape"] = (R0 + osp["shape"][0],) + tuple(sp["shape"][1:])
+                idx.append(other)
+                lib, res = True, idx
+            elif o == "filtered":
+                R0 = sp["shape"][0]
+                rs = numpy.random.RandomState(route["seed"])
+                mask = numpy.ones(R0, dtype=bool)
+                if route["drop"]:
+                    mask[rs.randint(0, R0, route["drop"])] = False
+                newid = numpy.cumsum(mask) - 1
+                base = {"entries": {}, "common": sp["common"], "shape": (int(mask.sum()),) + tuple(sp["shape"][1:])}
+                for k, rows in sp["entries"].items():
+                    kept = rows[mask[rows]]
+                    if len(kept):
+                        base["entries"][k] = newid[kept].astype(U32)
+                res = idx.filtered(mask, int(mask.sum()))
+                lib = True
+            elif o == "reindexed":
+                m = {k: v for k, v in route["mapping"]}
+                nc = m.get(sp["common"], sp["common"])
+                base = {"entries": {}, "common": nc, "shape": sp["shape"]}
+                merged = False
+                for k, rows in sp["entries"].items():
+                    nk = (m.get(k[0], k[0]),) + k[1:]
+                    if nk[0] == nc:
+                        merged = True
+                        continue
+                    if nk in base["entries"]:
+                        base["entries"][nk] = numpy.union1d(base["entries"][nk], rows).astype(U32)
+                        merged = True
+                    else:
+                        base["entries"][nk] = rows
+                res = idx.reindexed(m)
+                lib = merged
+                if not merged:
+                    exp = base
+            elif o == "column_stack":
+                osp = giant_small_other(q, route, (), sp["shape"][0])
+                other = impl.iindex({k: v.copy() for k, v in osp["entries"].items()}, osp["common"], osp["shape"])
+                parts = [osp, sp] if route["first"] else [sp, osp]
+                objs_ = [other, idx] if route["first"] else [idx, other]
+                res = impl.column_stack(objs_, new_common=route["new_common"])
+                nc = res.common if route["new_common"] is None else route["new_common"]
+                if route["new_common"] is None:
+                    # sparsity-weighted choice of the library: accept any of the inputs' commons, the content decides the rest
+                    if nc not in (osp["common"], sp["common"]):
+                        problems.append(("C06", "giant:column_stack-common", "%s: column_stack chose common %r" % (tag, nc)))
+                ents, off = {}, 0
+                for part in parts:
+                    sh = sp_shift(part, nc)
+                    for k, rows in sh["entries"].items():
+                        ents[(k[0], (k[1] if len(k) > 1 else 0) + off)] = rows
+                    off += part["shape"][1] if len(part["shape"]) > 1 else 1
+                exp = {"entries": ents, "common": nc, "shape": (sp["shape"][0], off)}
+        except MemoryError:
+            raise
+        except Exception as e:  # noqa
+            import traceback
+            problems.append(("C06", "giant:%s-raised" % o, "%s: %s raised %s: %s  %s" % (tag, route, type(e).__name__, str(e)[:200], traceback.format_exc()[-400:])))
+            break
+        if lib:
+            # library-chosen common: must be a most frequent value of the expected content; the content follows from it
+            cnt = sp_counts(base)
+            best = max(cnt.values()) if cnt else 0
+            if res.shape[0] and cnt.get(res.common, 0) != best:
+                problems.append(("C15", "giant:%s-common-not-most-frequent" % o, "%s: %s chose common %r; value counts %r" % (tag, route, res.common, cnt)))
+            exp = sp_shift(base, res.common)
+        nj += 3
+        if res.common != sp["common"]:
+            GIANT_MOVES[o] += 1
+        w = sp_wf(res)
+        if w:
+            problems.append(("C07", "giant:%s-illformed" % o, "%s: after %s: %s" % (tag, route, w)))
+        d = sp_same(sp_of_real(res), exp)
+        if d:
+            problems.append(("C06", "giant:%s-dense-mismatch" % o, "%s: after %s: %s" % (tag, route, d)))
+        if problems:
+            break
+        idx, sp = res, exp
+    return problems, nj, tag
